@@ -1872,7 +1872,58 @@ func transformJpgo(srcDir, dstDir, shimPrefix string) {
 	if !hasMain {
 		fatalf("cmd/jpgo has no func main")
 	}
-	extra := "// Code generated by /verif/instr. DO NOT EDIT.\n\npackage jpgomain\n\n// VerifMain runs jpgo's real main function.\nfunc VerifMain() { main() }\n"
+	// a real jpgo process starts with freshly initialised package-level variables; the
+	// in-process runs must too (purely syntactic: source order, initialiser text or zero value)
+	var resets []string
+	for _, fn := range files {
+		src, err := ioutil.ReadFile(fn)
+		if err != nil {
+			continue
+		}
+		fset := token.NewFileSet()
+		f, err := parser.ParseFile(fset, fn, src, 0)
+		if err != nil || f.Name.Name != "main" || hasIgnoreTag(f) {
+			continue
+		}
+		txt := func(n ast.Node) string {
+			return string(src[fset.Position(n.Pos()).Offset:fset.Position(n.End()).Offset])
+		}
+		for _, d := range f.Decls {
+			gd, ok := d.(*ast.GenDecl)
+			if !ok || gd.Tok != token.VAR {
+				continue
+			}
+			for _, sp := range gd.Specs {
+				vs := sp.(*ast.ValueSpec)
+				var names []string
+				blank := false
+				for _, n := range vs.Names {
+					names = append(names, n.Name)
+					if n.Name == "_" {
+						blank = true
+					}
+				}
+				switch {
+				case len(vs.Values) == len(vs.Names):
+					for i, n := range vs.Names {
+						if n.Name != "_" {
+							resets = append(resets, "\t"+n.Name+" = "+txt(vs.Values[i]))
+						}
+					}
+				case len(vs.Values) == 1 && !blank:
+					resets = append(resets, "\t"+strings.Join(names, ", ")+" = "+txt(vs.Values[0]))
+				case len(vs.Values) == 0 && vs.Type != nil:
+					for _, n := range vs.Names {
+						if n.Name != "_" {
+							resets = append(resets, "\t"+n.Name+" = *new("+txt(vs.Type)+")")
+						}
+					}
+				}
+			}
+		}
+	}
+	extra := "// Code generated by /verif/instr. DO NOT EDIT.\n\npackage jpgomain\n\n// VerifMain runs jpgo's real main function.\nfunc VerifMain() { main() }\n\n" +
+		"// VerifReset gives the package-level variables the values a fresh process would start with.\nfunc VerifReset() {\n" + strings.Join(resets, "\n") + "\n}\n"
 	if err := ioutil.WriteFile(filepath.Join(dstDir, "zz_verif_main.go"), []byte(extra), 0644); err != nil {
 		fatalf("%v", err)
 	}
